@@ -24,7 +24,7 @@ NEST = {
     "cycle": (lambda o: f"(let ([p (box #f)]) (let ([q (box p)]) (set-box! p (list {o} q)) q))", lambda h: f"(car (unbox (unbox {h})))"),
 }
 # holders through which the object is NOT accessible while the events run (only gc/garbage events)
-OPAQUE = {"thread-tls", "closure-global", "closure-local", "argtemp", "handler-cweh", "handler-with", "wind-after",
+OPAQUE = {"closure-captures-closure", "thread-tls", "closure-global", "closure-local", "argtemp", "handler-cweh", "handler-with", "wind-after",
           "continuation", "thread-stack", "host-rooted", "closure-in-box"}
 
 PRELUDE = ("(struct vcell@@ (v) #:mutable) (struct wrap@@ (f)) "
@@ -89,6 +89,27 @@ def render(c, prefix, garbage_n):
     elif holder == "container-vector":
         S(f"(define h@@ (vector 1 {W}))")
         S(ev("(vector-ref h@@ 1)") + f" (emit {rd(path('(vector-ref h@@ 1)'))})", exp)
+    elif holder == "container-pair":
+        S(f"(define h@@ (cons 1 {W}))")
+        S(ev("(cdr h@@)") + f" (emit {rd(path('(cdr h@@)'))})", exp)
+    elif holder == "container-hashset":
+        S(f"(define h@@ (hashset {W}))")
+        S(ev("(car (hashset->list h@@))") + f" (emit {rd(path('(car (hashset->list h@@))'))})", exp)
+    elif holder == "container-hash-key":
+        S(f"(define h@@ (hash {W} 'v))")
+        S(ev("(car (hash-keys->list h@@))") + f" (emit {rd(path('(car (hash-keys->list h@@))'))})", exp)
+    elif holder == "container-mvector":
+        S(f"(define h@@ (mutable-vector 1 {W}))")
+        S(ev("(vector-ref h@@ 1)") + f" (emit {rd(path('(vector-ref h@@ 1)'))})", exp)
+    elif holder == "container-mstruct":
+        S(f"(define h@@ (vcell@@ {W}))")
+        S(ev("(vcell@@-v h@@)") + f" (emit {rd(path('(vcell@@-v h@@)'))})", exp)
+    elif holder == "container-nested":
+        S(f"(define h@@ (list 0 (vector (hash 'k (cons 1 {W})))))")
+        S(ev("(cdr (hash-ref (vector-ref (cadr h@@) 0) 'k))") + f" (emit {rd(path('(cdr (hash-ref (vector-ref (cadr h@@) 0) (quote k)))'))})", exp)
+    elif holder == "closure-captures-closure":
+        S(f"(define f@@ (let ([inner (let ([h {W}]) (lambda () {rd(path('h'))}))]) (lambda () (inner))))")
+        S(ev("") + " (emit (f@@))", exp)
     elif holder == "param":
         S("(define p@@ (make-parameter #f))")
         S(f"(parameterize ([p@@ {W}]) {ev('(p@@)')} (emit {rd(path('(p@@)'))}))", exp)
